@@ -16,11 +16,11 @@ Record obs := Obs {
   ob_vf64 : bool; ob_fi64 : bool; ob_mapi64 : bool  (* dtypes: float64, int64, int64 *) }.
 
 Inductive case :=
-| CSlice (vdt : vdtype) (vs : list (vec3 Q)) (fs : list face) (ref n : vec3 Q) (mask : option (list bool)) (o : result obs)
+| CSlice (vdt : vdtype) (fdt : idtype) (vs : list (vec3 Q)) (fs : list face) (ref n : vec3 Q) (mask : option (list bool)) (o : result obs)
 (* a face array with negative (wrapping) entries *)
 | CSliceZ (vs : list (vec3 Q)) (fsz : list zface) (ref n : vec3 Q) (mask : option (list bool)) (o : result obs)
 (* slice_faces_plane called directly (no wrapper): dtype of the returned vertices, faces int64? *)
-| CKernelDt (vdt : vdtype) (vs : list (vec3 Q)) (fs : list face) (ref n : vec3 Q) (mask : option (list bool))
+| CKernelDt (vdt : vdtype) (fdt : idtype) (vs : list (vec3 Q)) (fs : list face) (ref n : vec3 Q) (mask : option (list bool))
             (o : result (vdtype * bool))
 | CUnique (vals uniq inv : list nat).
 
@@ -31,8 +31,10 @@ Definition face_rows (fs : list face) : list (list nat) := map (fun f => [fget f
 Definition vmag (v : vec3 Q) : Q := Qmax' (Qabs (vx v)) (Qmax' (Qabs (vy v)) (Qabs (vz v))).
 Definition mesh_mag (vs : list (vec3 Q)) (ref : vec3 Q) : Q :=
   fold_left (fun m p => Qmax' m (vmag p)) vs (vmag ref).
+(* 1e-11 relative to the magnitude of the input: a cut vertex costs a handful of flops *)
+Definition stol : Q := 1 # 100000000000.
 Definition close_rel (mag a b : Q) : bool :=
-  Qle_bool (Qabs (a - b)) (tol * Qmax' mag (Qmax' (Qabs a) (Qabs b))).
+  Qle_bool (Qabs (a - b)) (stol * Qmax' mag (Qmax' (Qabs a) (Qabs b))).
 Definition fl_close_rel (mag m : Q) (o : fl) : bool := match o with Fin q => close_rel mag m q | _ => false end.
 Definition vec_close_rel mag (m : vec3 Q) (o : list fl) : bool := all2 (fl_close_rel mag) (vlist m) o.
 Definition vecs_close_rel mag (m : list (vec3 Q)) (o : list (list fl)) : bool := all2 (vec_close_rel mag) m o.
@@ -60,12 +62,13 @@ Definition vdtype_eqb (a b : vdtype) : bool :=
 
 Definition check_slicing (c : case) : bool :=
   match c with
-  | CSlice vdt vs fs ref n mask o =>
+  | CSlice vdt fdt vs fs ref n mask o =>
       res_agree (check_obs (mesh_mag vs ref)) (slice_triangles_by_plane QOps vs fs ref n mask) o &&
-      check_dtypes (slice_triangles_by_plane_dtypes QOps vdt vs fs ref n mask) o
+      check_dtypes (slice_triangles_by_plane_dtypes QOps vdt fdt vs fs ref n mask) o
   | CSliceZ vs fsz ref n mask o => res_agree (check_obs (mesh_mag vs ref)) (slice_triangles_by_plane_z QOps vs fsz ref n mask) o
-  | CKernelDt vdt vs fs ref n mask o =>
-      res_agree (fun p ob => vdtype_eqb (dt_v (kernel_dtypes vdt p)) (fst ob) && Bool.eqb (is_i64 (dt_f (kernel_dtypes vdt p))) (snd ob))
-                (slice_faces_plane_path QOps (merge_tol QOps) vs fs n ref (option_map flatnonzero mask)) o
+  | CKernelDt vdt fdt vs fs ref n mask o =>
+      res_agree (fun d ob => vdtype_eqb (dt_v d) (fst ob) && Bool.eqb (is_i64 (dt_f d)) (snd ob))
+                (rbind (slice_faces_plane_path QOps (merge_tol QOps) vs fs n ref (option_map flatnonzero mask))
+                       (fun p => if kernel_faces_ok fdt p then Ok (kernel_dtypes vdt p) else Raise ValueError)) o
   | CUnique vals u i => nat_list_eqb (fst (unique_bincount vals)) u && nat_list_eqb (snd (unique_bincount vals)) i
   end.
